@@ -233,6 +233,6 @@ def cases(tier, seed):
 
 
 def run_case(c):
-    if c.get('g') == 'E2':
+    if c.get('g') in ('E2', 'E2R'):
         return _ht.run_case(PROPERTY, c)
     return _run_case_e1(c)
